@@ -301,6 +301,14 @@ def plan_C07(ctx):
 def plan_C08(ctx):
     ctx.assumptions = ["schema-level clause: content after SetAliasFor / ResetAliases / re-issuing InsertCopy equals the specification's renamed content exactly (definitions, conventions, reference texts)"]
     schema_plan(ctx, ["C08", "C07"], ["8"])
+    # text level: the translation functions themselves (every renaming goes through them)
+    ctx.assumptions.append("text-level clause: rslang::TranslateRS / SubstituteGlobals on expressions and ManagedText::TranslateRaw on texts with references, "
+                           "for maps of one or two entries (length-changing and same-length replacements in either order, names that are prefixes of each "
+                           "other, a local spelt like a global, multi-byte symbols around and inside references); a translated reference is compared in the "
+                           "library's own canonical spelling of that single reference")
+    cfg = "Gen_C08t_%s.cfg" % ("q" if ctx.quick else "t")
+    ctx.constants[cfg] = open(os.path.join(vcore.TLA, cfg)).read().split("SPECIFICATION")[0].split()
+    ctx.replay("Gen_C08t.tla", cfg, hbin(vcore.build(), "h_translate"), [], tag=cfg[:-4], timeout=3400, xss="64m", xmx="12g")
 
 
 OPS_RULE = ("A: every schema reachable by <= MaxLen insertions / erasures (Gen_Schema preset 'ops': base sets, terms whose definitions mention "
